@@ -74,6 +74,9 @@ type Engine struct {
 	Deadline time.Time
 	Replace  map[string]string // full name of a replaced function -> harness function (engine only)
 	Replaced map[string]int
+	netipZ   map[int]*value
+	ShardIdx, ShardN int
+	shardUsed bool
 
 	globals  map[*ssa.Global]*value
 	pristine map[*ssa.Global]value
@@ -968,6 +971,7 @@ func (e *Engine) resetPath(dec []int) {
 	e.timers = map[*value]*chanV{}
 	e.afterFuncs = nil
 	e.deadlockIsViolation = false
+	e.shardUsed = false
 	e.sched = newSched(e)
 	// restore globals from pristine snapshot
 	memo := map[*value]*value{}
